@@ -9,6 +9,7 @@
 //!   cap3 pos12 a1 b1 r1 a2 b2 r2 pred manifold   3-D `contact_manifold_capsule_capsule` called directly, arbitrary axes
 //!   hfc2 <hf2 args, other shape = capsule>   2-D HeightField-vs-capsule history (`contact_manifolds_heightfield_shape`) with user-data
 //!                               tags; observed per call: the cells `map_elements_in_local_aabb` reports (id, a, b)
+//!   ee3 pos12 e1a e1b e2a e2b sep flipped   `PolygonalFeature::contacts` on two 2-vertex features (edge/edge): npts (p1 p2 dist)*
 //!   pfm3 kind a b pred nposes pose*   pose history of a pfm/pfm pair whose support features are EDGES (capsule / cylinder /
 //!                               cone / segment sides): one-shot reference ;; manifold after every call (oracle only)
 use super::*;
@@ -177,6 +178,17 @@ pub fn exec(func: &str, a: &mut Args) -> String {
                 Some((ca, cb)) => format!("some {} {}", fclip2(&ca), fclip2(&cb)) } }
         "cc3" => cc3(a),
         "hfc2" => hfc2(a),
+        "ee3" => { use crate::p3::shape::{PolygonalFeature, Segment};
+            let p = d3::iso(a);
+            let f1 = PolygonalFeature::from(Segment::new(d3::p(a), d3::p(a)));
+            let f2 = PolygonalFeature::from(Segment::new(d3::p(a), d3::p(a)));
+            let sep = d3::v(a); let flipped = a.b();
+            let sep2 = p.inverse_transform_vector(&-sep);
+            let mut m = M3::new();
+            PolygonalFeature::contacts(&p, &p.inverse(), &sep, &sep2, &f1, &f2, &mut m, flipped);
+            let mut o = format!("{}", m.points.len());
+            for c in &m.points { o += &format!(" {} {} {}", d3::fp(&c.local_p1), d3::fp(&c.local_p2), ff(c.dist)); }
+            o }
         "pfm3" => pfm3(a),
         "cap3" => { use crate::p3::shape::Capsule;
             let p = d3::iso(a);
@@ -395,6 +407,22 @@ fn gen_cap3(r: &mut Rng, lat: bool, fam: usize) -> (String, String) {
         d3::hp(&a2), d3::hp(&b2), hx(r2), hx(pred), hman3(&unit3(r, lat), &unit3(r, lat), &pts)))
 }
 
+/// two edges (the css3 families: parallel / anti-parallel / tilted / arbitrary, unequal lengths, every overlap), edge 2 expressed in
+/// the frame of shape 2 through a random pose, a separating axis perpendicular to edge 1 towards edge 2 (or arbitrary), both `flipped`
+fn gen_ee3(r: &mut Rng, lat: bool, fam: usize) -> (String, String) {
+    let (_, args) = gen_css3(r, lat, fam);
+    let t: Vec<f64> = args.split_whitespace().map(|x| f64::from_bits(u64::from_str_radix(x, 16).unwrap())).collect();
+    let a1 = d3::Point::new(t[0], t[1], t[2]); let b1 = d3::Point::new(t[3], t[4], t[5]);
+    let a2 = d3::Point::new(t[6], t[7], t[8]); let b2 = d3::Point::new(t[9], t[10], t[11]);
+    let d1 = b1 - a1; let w = a2 - a1;
+    let n = if d1.norm_squared() > 0.0 { w - d1 * (w.dot(&d1) / d1.norm_squared()) } else { w };
+    let sep = match r.below(4) { 0 => unit3(r, lat), 1 => { let c = d1.cross(&(b2 - a2)); if c.norm() > 1e-6 { c / c.norm() } else { unit3(r, lat) } }
+                                 _ => if n.norm() > 1e-9 { n / n.norm() } else { unit3(r, lat) } };
+    let pos12 = d3::gen_iso(r, lat, 4.0);
+    let e2a = pos12.inverse_transform_point(&a2); let e2b = pos12.inverse_transform_point(&b2);
+    ("ee3".into(), format!("{} {} {} {} {} {} {}", d3::hiso(&pos12), d3::hp(&a1), d3::hp(&b1), d3::hp(&e2a), d3::hp(&e2b), d3::hv(&sep), b(r.below(4) == 0)))
+}
+
 pub fn gen(r: &mut Rng, thorough: bool) -> Vec<(String, String)> {
     let k = if thorough { 10 } else { 1 };
     let mut v = Vec::new();
@@ -403,6 +431,7 @@ pub fn gen(r: &mut Rng, thorough: bool) -> Vec<(String, String)> {
         v.push(gen_css3(r, lat, (it / 2) % 5));
         if it % 3 == 0 { v.push(gen_css2(r, lat, (it / 6) % 4)); }
     }
+    for it in 0..800 * k { v.push(gen_ee3(r, it % 2 == 0, (it / 2) % 5)); }
     for it in 0..300 * k { v.push(gen_cc3(r, it % 2 == 0, 12)); }
     for it in 0..160 * k {
         // HeightField-vs-capsule histories of the hf2 family, replayed with tags and the model leg
